@@ -456,6 +456,10 @@ def realVersion (h : CH) : Except Escape Ver :=
       | .ok l => .ok (l.foldl (fun r v => if knownVersions.contains v && r < v then v else r) h.clientVersion)
   else .ok h.clientVersion
 
+def optEmpty {α : Type} : Option (List α) → Bool
+  | none => true
+  | some l => l.isEmpty
+
 def alertIf (c : Bool) (d : Desc) (msg : String) (k : Chk) : Chk :=
   match c with
   | true => .ok (some (d, msg))
@@ -477,9 +481,20 @@ def chkBasics (h : CH) : Chk :=
   alertIf (h.suitesEmpty || h.compressionEmpty) dDecodeError "Malformed Client Hello message" <|
   alertIf (!h.hasNullCompression) dIllegalParameter "Client Hello missing uncompressed method" done
 
+/-- first check: `ver_ext and not ver_ext.versions` (the list is <2..254>; an extension without payload
+    parses to None) -/
+def chkSupportedVersions (h : CH) : Chk :=
+  withExt h.supportedVersions fun e =>
+  match e with
+  | none => done
+  | some vs => alertIf (optEmpty vs) dDecodeError "Malformed supported_versions extension" done
+
+/-- with supported_versions the negotiated version does not depend on the legacy client_version -/
 def chkSigAlgs (h : CH) : Chk :=
+  withExt h.supportedVersions fun sv =>
   withExt h.sigAlgs fun e =>
-  alertIf (0x0303 ≤ h.clientVersion && (match e with | some none => true | some (some 0) => true | _ => false))
+  alertIf ((0x0303 ≤ h.clientVersion || sv.isSome) &&
+      (match e with | some none => true | some (some 0) => true | _ => false))
     dDecodeError "Malformed signature_algorithms extension" done
 
 def chkAlpn (h : CH) : Chk :=
@@ -508,22 +523,6 @@ def chkEms (h : CH) : Chk :=
   withExt h.ems fun e =>
   alertIf (e == some true) dDecodeError "Non empty payload of the Extended Master Secret extension" done
 
-def chkEcPointFormats (h : CH) : Chk :=
-  match realVersion h with
-  | .error e => .error e
-  | .ok rv =>
-    if rv ≤ 0x0303 then
-      withExt h.ecPointFormats fun e =>
-      match e with
-      | none => done
-      | some f =>
-        alertIf (match f with | none => true | some l => l.isEmpty) dDecodeError "Empty ec_point_formats extension" <|
-        match iterOpt "ECPointFormat.uncompressed not in ecExt.formats" f with
-        | .error x => .error x
-        | .ok l => alertIf (!l.contains 0) dIllegalParameter
-            "Client sent ec_point_formats extension without uncompressed format" done
-    else done
-
 /-- `ver_ext and (3, 4) in ver_ext.versions` -/
 def offers13 (h : CH) : Except Escape Bool :=
   match getExt h.supportedVersions with
@@ -534,18 +533,44 @@ def offers13 (h : CH) : Except Escape Bool :=
     | .error e => .error e
     | .ok l => .ok (l.contains 0x0304)
 
-def optEmpty {α : Type} : Option (List α) → Bool
-  | none => true
-  | some l => l.isEmpty
+/-- needed whenever TLS 1.2 or earlier can end up negotiated: `real_version <= (3, 3) or
+    settings.maxVersion <= (3, 3) or not (ver_ext and (3, 4) in ver_ext.versions)` -/
+def chkEcPointFormats (s : SrvSettings) (h : CH) : Chk :=
+  match realVersion h with
+  | .error e => .error e
+  | .ok rv =>
+    match offers13 h with
+    | .error e => .error e
+    | .ok o13 =>
+      if rv ≤ 0x0303 || s.maxVersion ≤ 0x0303 || !o13 then
+        withExt h.ecPointFormats fun e =>
+        match e with
+        | none => done
+        | some f =>
+          alertIf (optEmpty f) dDecodeError "Empty ec_point_formats extension" <|
+          match iterOpt "ECPointFormat.uncompressed not in ecExt.formats" f with
+          | .error x => .error x
+          | .ok l => alertIf (!l.contains 0) dIllegalParameter
+              "Client sent ec_point_formats extension without uncompressed format" done
+      else done
+
+/-- `cert_type_ext and not cert_type_ext.certTypes` -/
+def chkCertTypeExt (h : CH) : Chk :=
+  withExt h.certType fun e =>
+  match e with
+  | none => done
+  | some t => alertIf (optEmpty t) dDecodeError "Empty cert_type extension" done
 
 /-- the PSK part of the TLS 1.3 block; returns whether key_exchange = "psk_ke" -/
 def chkPsk (h : CH) (k : Bool → Chk) : Chk :=
   withExt h.psk fun psk =>
   withExt h.pskModes fun modes =>
-  withExt h.keyShare fun _ =>
+  withExt h.keyShare fun ks =>
   withExt h.supGroups fun _ =>
   withExt h.pha fun pha =>
   alertIf (pha == some true) dDecodeError "Invalid encoding of post_handshake_auth extension" <|
+  -- the list of shares may be empty, but it has to be there (checked for every key exchange mode)
+  alertIf (match ks with | some none => true | _ => false) dDecodeError "Empty key_share extension" <|
   alertIf (match modes with | some m => optEmpty m | none => false) dDecodeError
     "Empty psk_key_exchange_modes extension" <|
   match psk with
@@ -686,8 +711,9 @@ def chkCertTypes (s : SrvSettings) (h : CH) : Chk :=
 
 /-- the blocks in the order of `_serverGetClientHello` -/
 def chBlocks (s : SrvSettings) (h : CH) : List (Unit → Chk) :=
-  [ fun _ => chkVersion s h, fun _ => chkBasics h, fun _ => chkSigAlgs h, fun _ => chkAlpn h,
-    fun _ => chkSni h, fun _ => chkEms h, fun _ => chkEcPointFormats h, fun _ => chkTls13 h,
+  [ fun _ => chkSupportedVersions h, fun _ => chkVersion s h, fun _ => chkBasics h, fun _ => chkSigAlgs h,
+    fun _ => chkAlpn h, fun _ => chkSni h, fun _ => chkEms h, fun _ => chkEcPointFormats s h,
+    fun _ => chkCertTypeExt h, fun _ => chkTls13 h,
     fun _ => chkVersionNegotiation s h, fun _ => withExt h.sni (fun _ => done), fun _ => chkGroups h,
     fun _ => chkHeartbeat h, fun _ => chkRecordSizeLimit h ]
 
@@ -709,9 +735,13 @@ def runBlocks : List (Unit → Chk) → Except Escape Verdict
     the record_size_limit check and this one are not modelled) -/
 def certTypeCheck (s : SrvSettings) (h : CH) : Except Escape Verdict := runBlocks [fun _ => chkCertTypes s h]
 
-/-- ClientHello checks: a parse error is answered by `_getMsg` (decode_error) before any of them -/
+/-- ClientHello checks: a parse error (SyntaxError -> decode_error, duplicated extension type ->
+    illegal_parameter) is answered by `_getMsg` before any of them -/
 def chChecks (s : SrvSettings) (h : CH) : Except Escape Verdict :=
-  if h.parseError then .ok (.alert dDecodeError "parse") else runBlocks (chBlocks s h)
+  if h.parseError then .ok (.alert dDecodeError "parse")
+  -- `_reject_duplicate_extensions` in ClientHello.parse: TLSIllegalParameterException -> `_getMsg`
+  else if !h.noDup then .ok (.alert dIllegalParameter "parse-duplicate")
+  else runBlocks (chBlocks s h)
 
 /-! ### ServerHello -/
 
@@ -731,6 +761,7 @@ structure SH where
   alpn : Ext (List Nat)                  -- name lengths; membership in the client's list below
   alpnFirstOffered : Bool
   heartbeat : Ext Nat
+  ecPointFormats : Ext (Option (List Nat))
   recordSizeLimit : Ext (Option Nat)
   keyShare : Ext (Option Nat)            -- server_share: None when the body is empty, else its group
   psk : Ext (Option Nat)                 -- selected identity: None when the body is empty
@@ -805,6 +836,12 @@ def shkHeartbeat (c : CliState) (h : SH) : Chk :=
     alertIf (!(m == 1 && c.heartbeatCallback) && !(m == 2 || !c.heartbeatCallback)) dIllegalParameter
       "Server responded with invalid Heartbeat extension" done
 
+def shkEcPointFormats (h : SH) : Chk :=
+  withExt h.ecPointFormats fun e =>
+  match e with
+  | none => done
+  | some f => alertIf (optEmpty f) dDecodeError "Empty ec_point_formats extension in Server Hello" done
+
 def shkRecordSizeLimit (h : SH) : Chk :=
   withExt h.recordSizeLimit fun e =>
   match e with
@@ -813,7 +850,9 @@ def shkRecordSizeLimit (h : SH) : Chk :=
   | some (some v) => alertIf (!(64 ≤ v && v ≤ 16384)) dIllegalParameter
       "Server responed with invalid value in record_size_limit extension" done
 
-/-- start of `_clientTLS13Handshake`: which key share / PSK the server selected -/
+/-- start of `_clientTLS13Handshake`: which key share / PSK the server selected.  The two `raise
+    TLSIllegalParameterException` are answered by the handler around the call (illegal_parameter with
+    the exception text) -/
 def shkTls13 (c : CliState) (h : SH) : Chk :=
   match shRealVersion h with
   | .error e => .error e
@@ -821,16 +860,15 @@ def shkTls13 (c : CliState) (h : SH) : Chk :=
     if rv ≤ 0x0303 then done else
     withExt h.keyShare fun ks =>
     withExt h.psk fun psk =>
-    if ks.isNone && psk.isNone then .error (.protoNoAlert "Server did not select PSK nor an (EC)DH group") else
+    alertIf (ks.isNone && psk.isNone) dIllegalParameter "Server did not select PSK nor an (EC)DH group" <|
     let kexPart : Chk :=
       match ks with
       | none => done
-      | some none => .error (.py .attributeError "sr_kex.group")
+      | some none => .ok (some (dDecodeError, "Empty key_share extension in Server Hello"))
       | some (some g) =>
         match c.sharesSent with
-        | none => .error (.py .attributeError "cl_key_share_ex.client_shares")
-        | some sent =>
-          if !sent.contains g then .error (.protoNoAlert "Server selected not advertised group.") else done
+        | none => .ok (some (dUnsupportedExtension, "Server sent key_share extension without one in client hello"))
+        | some sent => alertIf (!sent.contains g) dIllegalParameter "Server selected not advertised group." done
     match kexPart with
     | .error e => .error e
     | .ok (some a) => .ok (some a)
@@ -839,35 +877,25 @@ def shkTls13 (c : CliState) (h : SH) : Chk :=
       | none => done
       | some sel =>
         match c.pskIdsSent with
-        | none => .error (.py .attributeError "clPSK.identities")
+        | none => .ok (some (dUnsupportedExtension, "Server sent pre_shared_key extension without one in client hello"))
         | some n =>
           match sel with
-          | none => .error (.py .typeError "clPSK.identities[sr_psk.selected]")
-          | some i => if i < n then done else .error (.py .indexError "clPSK.identities[sr_psk.selected]")
+          | none => .ok (some (dDecodeError, "Empty pre_shared_key extension in Server Hello"))
+          | some i => alertIf (decide (n ≤ i)) dIllegalParameter "Server selected PSK identity we did not offer" done
 
 def SH.noDup (h : SH) : Bool :=
   !h.supportedVersions.isDup && !h.ems.isDup && !h.alpn.isDup && !h.heartbeat.isDup &&
-  !h.recordSizeLimit.isDup && !h.keyShare.isDup && !h.psk.isDup
-
-/-- what `_clientTLS13Handshake` silently relies on: the selected key share / PSK exist, are well
-    formed and were offered -/
-def SH.selectionOk (c : CliState) (h : SH) : Bool :=
-  (match h.keyShare with
-   | .absent => true
-   | .present (some g) => (match c.sharesSent with | some sent => sent.contains g | none => false)
-   | _ => false) &&
-  (match h.psk with
-   | .absent => true
-   | .present (some i) => (match c.pskIdsSent with | some n => decide (i < n) | none => false)
-   | _ => false) &&
-  !(h.keyShare.toOption.isNone && h.psk.toOption.isNone)
+  !h.recordSizeLimit.isDup && !h.keyShare.isDup && !h.psk.isDup && !h.ecPointFormats.isDup
 
 def shBlocks (c : CliState) (h : SH) : List (Unit → Chk) :=
   [ fun _ => shkVersion c h, fun _ => shkBasics c h, fun _ => shkEms c h, fun _ => shkAlpn c h,
-    fun _ => shkHeartbeat c h, fun _ => shkRecordSizeLimit h, fun _ => shkTls13 c h ]
+    fun _ => shkHeartbeat c h, fun _ => shkEcPointFormats h, fun _ => shkRecordSizeLimit h,
+    fun _ => shkTls13 c h ]
 
 def shChecks (c : CliState) (h : SH) : Except Escape Verdict :=
-  if h.parseError then .ok (.alert dDecodeError "parse") else runBlocks (shBlocks c h)
+  if h.parseError then .ok (.alert dDecodeError "parse")
+  else if !h.noDup then .ok (.alert dIllegalParameter "parse-duplicate")
+  else runBlocks (shBlocks c h)
 
 /-! ## (iv) CompressedCertificate -/
 
